@@ -47,7 +47,10 @@ func (h ledgersResourceHandler) BuildDataset(ctx common.RepositoryHandlerBuildCo
 func (h ledgersResourceHandler) ResolveFilter(_ common.ResourceQuery[ListLedgersQueryPayload], operator, property string, value any) (string, []any, error) {
 	switch {
 	case property == "bucket":
-		return "bucket = ?", []any{value}, nil
+		if operator == queries.OperatorIn {
+			return "bucket IN (?)", []any{bun.In(value)}, nil
+		}
+		return "bucket " + common.ConvertOperatorToSQL(operator) + " ?", []any{value}, nil
 	case featuresRegex.Match([]byte(property)):
 		match := featuresRegex.FindAllStringSubmatch(property, 3)
 
@@ -64,6 +67,9 @@ func (h ledgersResourceHandler) ResolveFilter(_ common.ResourceQuery[ListLedgers
 	case property == "metadata":
 		return "metadata -> ? is not null", []any{value}, nil
 	case property == "name":
+		if operator == queries.OperatorIn {
+			return "name IN (?)", []any{bun.In(value)}, nil
+		}
 		return "name " + common.ConvertOperatorToSQL(operator) + " ?", []any{value}, nil
 	default:
 		return "", nil, common.NewErrInvalidQuery("invalid filter property %s", property)
